@@ -25,6 +25,8 @@ import (
 	"bufio"
 	"bytes"
 	"crypto/ed25519"
+	"crypto/sha256"
+	"crypto/sha512"
 	"crypto/x509"
 	"encoding/hex"
 	"encoding/json"
@@ -113,6 +115,15 @@ var mixes = map[string][]string{
 		"error-returns", "failing-inspection", "record-start-stop"},
 	cwdMix:  {"verify-with-dir", "record-relative", "in-toto-run-relative"},
 	sameMix: {"verify-same-inspection"},
+	// explicit only (own processes, see checks/c16.py):
+	// every goroutine records its own tree with files of 1 B .. 2 MiB under one, and under all three, hash
+	// algorithms; every digest is compared with the one the harness computes itself with crypto/sha*
+	multiAlgMix: {"record-multi-alg", "record-multi-alg", "in-toto-run-multi-alg"},
+	// verifications whose step carries, beside the honest links, 2-4 links that must be rejected (unauthorised signer,
+	// broken signature, certificate failing the step's constraints)
+	rejectedMix: {"verify-rejected-links"},
+	// every goroutine loads its own RSA-2048 / P-256 / P-384 / ed25519 key pairs (private and public PEM) many times
+	loadKeysMix: {"load-keys"},
 	"mixed": {"record", "record-nofollow", "record-gitignore", "run-command", "in-toto-run", "in-toto-run-dsse", "sign-verify",
 		"dsse-sign-verify", "dump-load", "dsse-dump-load", "load-key", "verify-artifacts", "substitute", "in-toto-verify",
 		"verify-artifacts-malformed", "error-returns", "record-start-stop", "load-unparsable"},
@@ -126,6 +137,27 @@ const cwdMix = "cwd-relative"
 // run directories clean (must pass), half with a disallowed extra file (must fail); every call is released by a
 // barrier so that the inspections of all goroutines run, dump and finish together
 const sameMix = "shared-inspection-name"
+
+const (
+	multiAlgMix = "record-multi-alg"
+	rejectedMix = "verify-with-rejected-links"
+	loadKeysMix = "load-keys"
+)
+
+var explicitMixes = map[string]bool{cwdMix: true, sameMix: true, multiAlgMix: true, rejectedMix: true, loadKeysMix: true}
+
+// prepared: per task material that is generated once per batch, sequentially, before either phase (random keys and
+// certificates: the same objects must be used by the concurrent and by the sequential phase)
+type extras struct {
+	ca                *lib.CA
+	leafGood, leafBad lib.Leaf
+	pairs             []lib.KeyPair // load-keys: rsa2048, ecdsa256, ecdsa384, ed25519
+}
+
+var prepared = map[string]*extras{}
+
+// loadIterations: loads per key half and call in the mix load-keys (argument of `run`, default 60)
+var loadIterations = 60
 
 // opBarrier, when set (concurrent phase of sameMix), makes every goroutine wait until all goroutines of the batch are
 // about to make their i-th call
@@ -163,6 +195,27 @@ func genTasks(b batch) []task {
 	for k := range ts {
 		tr := r.Fork()
 		t := task{K: k}
+		if b.Mix == multiAlgMix || b.Mix == rejectedMix || b.Mix == loadKeysMix {
+			seed := make([]byte, 32)
+			for i := range seed {
+				seed[i] = byte(tr.Intn(256))
+			}
+			t.KeySeed = hex.EncodeToString(seed)
+			t.TreeKind = "plain"
+			n := 4
+			if b.Mix == multiAlgMix {
+				t.TreeKind = "sized-files"
+				n = 3
+			}
+			if b.Mix == loadKeysMix {
+				n = 2
+			}
+			for i := 0; i < n; i++ {
+				t.Ops = append(t.Ops, op{Kind: kinds[tr.Intn(len(kinds))], A: tr.Intn(1000), B: tr.Intn(1000)})
+			}
+			ts[k] = t
+			continue
+		}
 		if b.Mix == sameMix {
 			seed := make([]byte, 32)
 			for i := range seed {
@@ -269,6 +322,18 @@ func buildTree(root string, t task) {
 		must(os.Symlink(filepath.Join(root, "ext", "other"), filepath.Join(root, "ext", "lib", "more")))
 		must(os.Symlink(filepath.Join(root, "src", "main.c"), filepath.Join(root, "ext", "other", "file-link")))
 		must(os.Symlink(filepath.Join(root, "ext", "lib"), filepath.Join(root, "src", "util", "vendor2")))
+	case "sized-files":
+		// 1 B .. 2 MiB: hashing the large ones takes long enough to be preempted
+		for j, size := range []int{1, 2, 63, 64, 65, 4096, 65537, 300000, 2 << 20} {
+			b := make([]byte, size)
+			x := uint32(t.K*7919 + j*104729 + int(t.KeySeed[0]))
+			for q := range b {
+				x = x*1664525 + 1013904223
+				b[q] = byte(x >> 24)
+			}
+			must(os.MkdirAll(filepath.Join(root, "sized"), 0o755))
+			must(os.WriteFile(filepath.Join(root, "sized", fmt.Sprintf("f%02d-%d.bin", j, size)), b, 0o644))
+		}
 	case "big-links":
 		// a few larger files (walked before the links: a walk takes a while) plus file links, a chain of file
 		// links, directory links and a chain of directory links
@@ -730,6 +795,164 @@ func runOp(t task, o op, i int, root string, ks keys) string {
 		script := fmt.Sprintf("cat %s/src/main.c; echo rel-%d", rel, o.A) // runDir "": the command inherits the working directory
 		return strings.ReplaceAll(showMeta(intoto.InTotoRun(fmt.Sprintf("rel-%d", i), "", []string{filepath.Join(rel, "src")}, []string{filepath.Join(rel, "src")},
 			[]string{"sh", "-c", script}, ks.priv, []string{"sha256"}, nil, []string{rel + "/"}, true, true, false)), rel, "<REL>")
+	case "record-multi-alg", "in-toto-run-multi-alg":
+		algs := [][]string{{"sha256", "sha384", "sha512"}, {"sha256", "sha384", "sha512"}, {"sha256"}, {"sha384"}, {"sha512"}, {"sha512", "sha256"}}[o.A%6]
+		dir := filepath.Join(root, "sized")
+		// the digests the property demands, computed by the harness itself
+		want := map[string]intoto.HashObj{}
+		ents, err := os.ReadDir(dir)
+		must(err)
+		for _, e := range ents {
+			data, err := os.ReadFile(filepath.Join(dir, e.Name()))
+			must(err)
+			h := intoto.HashObj{}
+			for _, a := range algs {
+				switch a {
+				case "sha256":
+					h[a] = fmt.Sprintf("%x", sha256.Sum256(data))
+				case "sha384":
+					h[a] = fmt.Sprintf("%x", sha512.Sum384(data))
+				case "sha512":
+					h[a] = fmt.Sprintf("%x", sha512.Sum512(data))
+				}
+			}
+			want["sized/"+e.Name()] = h
+		}
+		var got map[string]intoto.HashObj
+		if o.Kind == "record-multi-alg" {
+			got, err = intoto.RecordArtifacts([]string{dir}, algs, nil, strip, false, false)
+		} else {
+			var md intoto.Metadata
+			md, err = intoto.InTotoRun(fmt.Sprintf("multi-%d", i), root, []string{dir}, nil, []string{"true"}, ks.priv, algs, nil, strip, false, false, o.B%2 == 0)
+			if err == nil {
+				got = md.GetPayload().(intoto.Link).Materials
+			}
+		}
+		if err != nil {
+			return errClass(err)
+		}
+		var wrong []string
+		for name, h := range want {
+			for a, d := range h {
+				if got[name][a] != d {
+					wrong = append(wrong, fmt.Sprintf("%s %s: got %.16s.. want %.16s..", name, a, got[name][a], d))
+				}
+			}
+		}
+		if len(got) != len(want) {
+			wrong = append(wrong, fmt.Sprintf("%d artifacts recorded, %d files", len(got), len(want)))
+		}
+		if len(wrong) > 0 {
+			sort.Strings(wrong)
+			return fmt.Sprintf("WRONG-DIGEST (%d of %d digests differ from crypto/sha*) %s", len(wrong), len(want)*len(algs), strings.Join(wrong[:min(len(wrong), 4)], "; "))
+		}
+		return show(got, nil)
+	case "verify-rejected-links":
+		ex := prepared[t.KeySeed]
+		f2Priv, f2Pub, _ := mkKey(flip(t.KeySeed, 2))
+		in1, _, _ := mkKey(flip(t.KeySeed, 3))
+		in2, _, _ := mkKey(flip(t.KeySeed, 4))
+		script := fmt.Sprintf("echo rl-%d-%d > out/rl-%d.txt", t.K, o.A, i)
+		linkDir := filepath.Join(root, fmt.Sprintf("links-rl-%d", i))
+		must(os.MkdirAll(linkDir, 0o755))
+		md, err := intoto.InTotoRun("build", root, []string{filepath.Join(root, "src")}, []string{filepath.Join(root, "out")},
+			[]string{"sh", "-c", script}, ks.priv, []string{"sha256"}, nil, strip, true, false, false)
+		if err != nil {
+			return "ERR run: " + errClass(err)
+		}
+		link := md.GetPayload().(intoto.Link)
+		put := func(key intoto.Key, tamper bool) {
+			mb := &intoto.Metablock{Signed: link}
+			must(mb.Sign(key))
+			if tamper {
+				sg := []byte(mb.Signatures[0].Sig)
+				if sg[10] == 'a' {
+					sg[10] = 'b'
+				} else {
+					sg[10] = 'a'
+				}
+				mb.Signatures[0].Sig = string(sg)
+			}
+			must(mb.Dump(filepath.Join(linkDir, fmt.Sprintf(intoto.LinkNameFormat, "build", key.KeyID))))
+		}
+		honest := 1
+		put(ks.priv, false)
+		if o.A%2 == 0 {
+			put(ex.leafGood.Key, false) // accepted through the certificate constraint
+			honest++
+		}
+		// 2-4 links that must be rejected
+		rejected := []func(){
+			func() { put(in1, false) },            // signer not authorised, no certificate
+			func() { put(f2Priv, true) },          // authorised signer, broken signature
+			func() { put(ex.leafBad.Key, false) }, // certificate does not meet the step's constraints
+			func() { put(in2, false) },
+		}
+		nrej := 2 + o.B%3
+		for j := 0; j < nrej; j++ {
+			rejected[(o.A+j)%4]()
+		}
+		layout := sampleLayout(t, o, ks)
+		layout.Keys[f2Pub.KeyID] = f2Pub
+		layout.Steps[0].PubKeys = []string{ks.pub.KeyID, f2Pub.KeyID}
+		layout.Steps[0].CertificateConstraints = []intoto.CertificateConstraint{{CommonName: "builder-" + t.KeySeed[:8], DNSNames: []string{"*"},
+			Emails: []string{"*"}, Organizations: []string{"*"}, Roots: []string{"*"}, URIs: []string{"*"}}}
+		layout.RootCas = map[string]intoto.Key{ex.ca.Key.KeyID: ex.ca.Key}
+		layout.Steps[0].Threshold = 1
+		if o.A%3 == 0 {
+			layout.Steps[0].Threshold = honest + 1 // not enough good links: must fail whatever the rejected ones say
+		} else if honest == 2 && o.B%2 == 0 {
+			layout.Steps[0].Threshold = 2
+		}
+		layoutMb := &intoto.Metablock{Signed: layout}
+		must(layoutMb.Sign(ks.ownPriv))
+		return showMeta(intoto.InTotoVerify(layoutMb, map[string]intoto.Key{ks.ownPub.KeyID: ks.ownPub}, linkDir, "", map[string]string{"CMD": script, "PAT": "*"}, nil, true))
+	case "load-keys":
+		// every load must give this key's id, type, scheme and halves; the public half is also compared with the PEM the
+		// harness produced with crypto/x509 (rsa, ecdsa) resp. the raw key (ed25519)
+		ex := prepared[t.KeySeed]
+		res := map[string]any{}
+		bad := []string{}
+		for _, kp := range ex.pairs {
+			for _, half := range []string{"private", "public"} {
+				pemBytes := kp.PrivPEM
+				if half == "public" {
+					pemBytes = kp.PubPEM
+				}
+				wantPub := strings.TrimSpace(string(kp.PubPEM))
+				if edk, ok := kp.Signer.Public().(ed25519.PublicKey); ok {
+					wantPub = hex.EncodeToString(edk)
+				}
+				var ref intoto.Key
+				for n := 0; n < loadIterations; n++ {
+					var k intoto.Key
+					if err := k.LoadKeyReaderDefaults(bytes.NewReader(pemBytes)); err != nil {
+						bad = append(bad, fmt.Sprintf("%s %s load %d: %s", kp.Name, half, n, errClass(err)))
+						continue
+					}
+					if n == 0 {
+						ref = k
+					}
+					if k.KeyID != ref.KeyID || k.KeyType != ref.KeyType || k.Scheme != ref.Scheme || k.KeyVal != ref.KeyVal {
+						bad = append(bad, fmt.Sprintf("%s %s load %d differs from load 0: keyid %.12s vs %.12s", kp.Name, half, n, k.KeyID, ref.KeyID))
+					}
+					if k.KeyVal.Public != wantPub {
+						bad = append(bad, fmt.Sprintf("%s %s load %d: public half is not this key's", kp.Name, half, n))
+					}
+					if (half == "public") != (k.KeyVal.Private == "") {
+						bad = append(bad, fmt.Sprintf("%s %s load %d: private half present=%v", kp.Name, half, n, k.KeyVal.Private != ""))
+					}
+					if n%8 == 7 {
+						runtime.Gosched()
+					}
+				}
+				res[kp.Name+"/"+half] = map[string]string{"keyid": ref.KeyID, "type": ref.KeyType, "scheme": ref.Scheme, "public": fmt.Sprintf("%x", sha256.Sum256([]byte(ref.KeyVal.Public)))}
+			}
+		}
+		if len(bad) > 0 {
+			return fmt.Sprintf("WRONG-KEY (%d of %d loads) %s", len(bad), 8*loadIterations, strings.Join(bad[:min(len(bad), 4)], "; "))
+		}
+		return show(res, nil)
 	case "verify-same-inspection":
 		// own key, layout object, link directory and run directory; the inspections carry the names every other
 		// goroutine of the batch uses too. Strict inspection rules: the unpacked file must MATCH the product of the
@@ -849,6 +1072,32 @@ func runTask(t task, root string, yield bool) (out []string) {
 	return out
 }
 
+func flip(seedHex string, j byte) []byte {
+	b, _ := hex.DecodeString(seedHex)
+	b[0] ^= j
+	b[5] ^= 0x5a
+	return b
+}
+
+// prepare generates, sequentially and before either phase, what a task needs beyond its seed
+func prepare(b batch, tasks []task) {
+	prepared = map[string]*extras{}
+	for _, t := range tasks {
+		ex := &extras{}
+		switch b.Mix {
+		case rejectedMix:
+			ex.ca = lib.NewCA("root-"+t.KeySeed[:8], nil, lib.CertOpts{})
+			ex.leafGood = ex.ca.NewLeaf(lib.CertOpts{CN: "builder-" + t.KeySeed[:8]})
+			ex.leafBad = ex.ca.NewLeaf(lib.CertOpts{CN: "intruder-" + t.KeySeed[:8]})
+		case loadKeysMix:
+			for _, kind := range []string{"rsa2048", "ecdsa256", "ecdsa384", "ed"} {
+				ex.pairs = append(ex.pairs, lib.GetKeyPair(fmt.Sprintf("%s-c16-g%d", kind, t.K%16)))
+			}
+		}
+		prepared[t.KeySeed] = ex
+	}
+}
+
 // ---------- one batch ----------
 
 // exit status of the harness when a phase did not return (the blocked goroutines cannot be cancelled: the process ends)
@@ -936,6 +1185,7 @@ func runBatch(work string, b batch) batchResult {
 		}
 		res.Trees[t.TreeKind]++
 	}
+	prepare(b, tasks)
 	if b.Procs > 0 {
 		defer runtime.GOMAXPROCS(runtime.GOMAXPROCS(b.Procs))
 	}
@@ -1010,6 +1260,9 @@ func runBatch(work string, b batch) batchResult {
 		for i, o := range t.Ops {
 			if seq[k][i] != conc[k][i] {
 				res.Mismatches = append(res.Mismatches, mismatch{k, i, o.Kind, t.TreeKind, clip(seq[k][i]), clip(conc[k][i])})
+			} else if strings.HasPrefix(seq[k][i], "WRONG-") {
+				// wrong against the harness's own computation even when called alone
+				res.Mismatches = append(res.Mismatches, mismatch{k, i, o.Kind + "/sequential-too", t.TreeKind, "the value computed by the harness itself", clip(seq[k][i])})
 			}
 		}
 	}
@@ -1046,6 +1299,9 @@ func main() {
 		fmt.Fprintln(os.Stderr, "usage: c16 run|replay ...")
 		os.Exit(2)
 	}
+	if v, err := strconv.Atoi(os.Getenv("C16_LOAD_ITER")); err == nil && v > 0 {
+		loadIterations = v
+	}
 	switch os.Args[1] {
 	case "run":
 		if len(os.Args) < 8 {
@@ -1068,7 +1324,7 @@ func main() {
 			mixNames = strings.Split(os.Args[8], ",")
 		} else {
 			for m := range mixes {
-				if m != cwdMix && m != sameMix {
+				if !explicitMixes[m] {
 					mixNames = append(mixNames, m)
 				}
 			}
